@@ -119,3 +119,21 @@ package keeper
 //@        && result.VestingPools[j].CurrentlyLocked == intString($pIL[req.Owner][j] - $pS[req.Owner][j] - $pW[req.Owner][j])
 //@        && result.VestingPools[j].Name == $pName[req.Owner][j] && result.VestingPools[j].LockEnd == $pLockEnd[req.Owner][j]
 //@   decreases len(accountVestingPools.VestingPools) - \i
+
+//@ // ---- declared effects (checked per call instruction by the effect checker; anything not listed is effect-free) ----
+//@ effects Keeper.CreateVestingAccount auth.setaccount bank.send
+//@ effects Keeper.CreateVestingPool bank.send
+//@ effects Keeper.SendToNewVestingAccount auth.setaccount bank.send
+//@ effects Keeper.UnlockUnbondedContinuousVestingAccountCoins auth.setaccount
+//@ effects Keeper.WithdrawAllAvailable bank.send
+//@ effects Keeper.addVestingPool bank.send
+//@ effects Keeper.newContinuousVestingAccount auth.setaccount
+//@ effects Keeper.newVestingAccount auth.setaccount bank.send
+//@ effects msgServer.CreateVestingAccount auth.setaccount bank.send
+//@ effects msgServer.CreateVestingPool bank.send
+//@ effects msgServer.MoveAvailableVesting auth.setaccount bank.send
+//@ effects msgServer.MoveAvailableVestingByDenoms auth.setaccount bank.send
+//@ effects msgServer.SendToVestingAccount auth.setaccount bank.send
+//@ effects msgServer.SplitVesting auth.setaccount bank.send
+//@ effects msgServer.WithdrawAllAvailable bank.send
+//@ effects msgServer.splitVestingCoins auth.setaccount bank.send
